@@ -451,6 +451,8 @@ func emitCallOrders(p *pkgInfo) string {
 	fmt.Fprintf(&b, "def order_maybeValue : List String := %s\n", leanList(stmtTags(p, p.funcs["customGen.maybeValue"])))
 	fmt.Fprintf(&b, "def order_cleanup : List String := %s\n", leanList(stmtTags(p, p.funcs["T.cleanup"])))
 	fmt.Fprintf(&b, "def order_example : List String := %s\n", leanList(stmtTags(p, p.funcs["example"])))
+	fmt.Fprintf(&b, "def order_cleanupCustom : List String := %s\n", leanList(stmtTags(p, p.funcs["T.cleanupCustom"])))
+	fmt.Fprintf(&b, "def order_runCleanupFunc : List String := %s\n", leanList(stmtTags(p, p.funcs["T.runCleanupFunc"])))
 	fmt.Fprintf(&b, "def order_saveFailFile : List String := %s\n", leanList(osCalls(p, p.funcs["saveFailFile"])))
 	fmt.Fprintf(&b, "def order_checkFuzz : List String := %s\n", leanList(stmtTags(p, p.funcs["checkFuzz"])))
 	for _, fn := range []string{"removeGroups", "minimizeBlocks", "lowerFloatHack", "removeGroupsAndLower", "sortGroups", "removeGroupSpans", "shrink", "accept"} {
